@@ -153,6 +153,7 @@ struct Obj {
 
   // Function
   bool is_inline;
+  bool is_inline_def; // local only as an inline definition (6.7.4p7)
   Obj *params;
   Node *body;
   Obj *locals;
